@@ -26,9 +26,14 @@ for p in props:
         "level_note": c["level_note"],
         "technique": c["technique"],
     }
+    if c.get("tcp"):
+        e["technique"] += ("; plus a rapid-generated sub-check on the real-loopback engine (real TCP sockets and net.Dialer, real time, "
+                           "the repository's own timer-channel semantics), with one-sided load-robust oracles")
     checks.append(e)
 na = [{"property_id": p["id"], "reason": NOT_APPLICABLE.get(p["id"], "check not built yet (work in progress; see DESIGN.md section 4)")}
       for p in props if p["id"] not in PROPS]
+for eng in ENGINES:
+    eng["serves_properties"] = [c["property_id"] for c in checks if eng["name"] == "sim" or PROPS[c["property_id"]].get("tcp")]
 m = {
     "version": 1,
     "setup_cmd": "./check --setup",
